@@ -1,6 +1,9 @@
 import Rv.Model.Event
 import Rv.Spec.PubSub
 import Rv.Lemmas.Event
+import Rv.Model.Mailbox
+import Rv.Lemmas.Mailbox
+import Rv.Generated.Shapes
 /-
   C19 — components follow the latest setting; unsubscribing is safe in any order.
 -/
@@ -56,6 +59,33 @@ def FollowsLatestFull : Prop :=
     Event with a gate). -/
 theorem not_follows_latest_full : ¬ FollowsLatestFull :=
   Rv.Lemmas.Event.not_follows_latest_full
+
+/-! ### the cleanup task's interval mailbox (cache/cache_janitor.go) -/
+
+/-- the CURRENT source hands a new cleanup interval to the task with a plain,
+    blocking channel send (extracted shape of newCacheJanitor). -/
+theorem interval_send_blocks : Rv.Generated.intervalSend = "blockingSend" := by decide
+
+/-- with that blocking send the cleanup task ends up following the LAST interval
+    whose notification was delivered — for every number of changes, however
+    quickly they follow one another, and every interleaving of the listeners'
+    sends with the task's receives (the task may be busy in a cleanup cycle for
+    arbitrarily long in between): nothing delivered is ever lost or overtaken in
+    the one-slot mailbox. (Which notification is delivered last is the Event's
+    business: known finding C19/async-delivery-unordered.) -/
+theorem cleanup_task_follows_latest_interval (i : Nat) (steps : List Rv.Mailbox.Step)
+    (hq : Rv.Mailbox.quiescent (Rv.Mailbox.run true steps (Rv.Mailbox.init i)) = true)
+    (hne : Rv.Mailbox.delivered steps ≠ []) :
+    (Rv.Mailbox.run true steps (Rv.Mailbox.init i)).interval = ((Rv.Mailbox.delivered steps).getLast?).getD i :=
+  Rv.Lemmas.Mailbox.follows_latest i steps hq hne
+
+/-- why the extracted fact matters: a send that gives up when the slot is taken
+    (select/default) loses the newer value while the task is busy. -/
+theorem nonblocking_send_loses_the_latest :
+    let st := Rv.Mailbox.run false [.deliver 3600, .deliver 50, .drain, .drain] (Rv.Mailbox.init 20)
+    Rv.Mailbox.quiescent st = true ∧ st.interval = 3600 := by decide
+
+example : (Rv.Mailbox.run true [.deliver 3600, .deliver 50, .drain, .drain] (Rv.Mailbox.init 20)).interval = 50 := by decide
 
 example : (run [.subscribe 7, .subscribe 8, .subscribe 9, .unsubscribe 0, .unsubscribe 1] init).subs = [(2, 9)] := by decide
 example : (run [.subscribe 7, .subscribe 8, .subscribe 9, .unsubscribe 0, .unsubscribe 2, .unsubscribe 2] init).subs = [(1, 8)] := by decide
